@@ -87,7 +87,7 @@ def stepDary (s : St) (d : Nat) (hd : 0 < d) (h : Array Nat) (ts : List String) 
     | some out => fin s #[] (Drv.showCsv out)
     | none => (s, ub)
   | ["build", v, ks] =>
-    if v = "it" ∨ v = "cv" ∨ v = "mv" then
+    if v = "it" ∨ v = "cv" ∨ v = "mv" ∨ v = "dq" ∨ v = "li" ∨ v = "fl" ∨ v = "sp" then
       match Drv.natCsv ks with
       | some ks => if keysOk ks then fin s (build lt d hd ks.toArray) "ok" else (s, "bad-op")
       | none => (s, "bad-op")
@@ -150,7 +150,7 @@ def stepAddr (s : St) (d : Nat) (hd : 0 < d) (a : AH) (ref : List Nat) (ts : Lis
     | some (a', out) => fin s a' [] (Drv.showCsv out)
     | none => (s, ub)
   | ["build", v, ks] =>
-    if v = "it" ∨ v = "cv" ∨ v = "mv" then
+    if v = "it" ∨ v = "cv" ∨ v = "mv" ∨ v = "dq" ∨ v = "li" ∨ v = "fl" ∨ v = "sp" then
       match Drv.natCsv ks with
       | some ks =>
         if keysOk ks ∧ ks.eraseDups.length = ks.length then opt s (a.build lt d hd ks.toArray) ks "ok"
